@@ -393,6 +393,12 @@ func (p *parser) typeExpr() *TypeExpr {
 	if n.kind != "ident" {
 		p.fail("expected type, got %q", n.text)
 	}
+	if n.text == "map" && p.isOp("[") {
+		p.next()
+		k := p.typeExpr()
+		p.expect("]")
+		return &TypeExpr{Kind: "map", Params: []*TypeExpr{k}, Elem: p.typeExpr()}
+	}
 	if n.text == "func" && p.isOp("(") {
 		p.next()
 		ft := &TypeExpr{Kind: "func"}
